@@ -84,6 +84,20 @@ def run(chk: core.Check, n: int):
             if not okg:
                 bad("HelixObject: position / momentum of a helix moved AFTER its reports were read", i, {"position": [gp.x, gp.y, gp.z], "momentum_phi": gm.phi, "moved_to": list(npv), "dr_phi0_dz": [g.dr, g.phi0, g.dz]},
                     {"position": wantg, "momentum_phi": (g.phi0 + math.pi / 2) % hc.TWO_PI}, doc + " evaluated on the moved helix's own parameters"); break
+        if i % 6 == 0:
+            # the caller's work buffer: a helix built from a float64 array (tuple form, positional form, error matrix) keeps the values it was
+            # built with when the caller refills the buffer for the next track
+            buf = np.array(want, dtype=np.float64)
+            ebuf = np.eye(5) * 1e-3
+            hs = {"params=<float64 array>": pybes3.helix_obj(params=buf, pivot=tuple(h["piv"][i])), "*<float64 array>": pybes3.helix_obj(*buf, pivot=tuple(h["piv"][i])),
+                  "params=<array>, error=<array>": pybes3.helix_obj(params=buf, error=ebuf, pivot=tuple(h["piv"][i]))}
+            buf[:] = [9.5, 0.25, -want[2], -3.0, 1.5]
+            chk.count(len(hs), key="caller-buffer")
+            for form_, hx in hs.items():
+                gotb = [hx.dr, hx.phi0, hx.kappa, hx.dz, hx.tanl]
+                if gotb != want or hx.charge != (1 if want[2] > 0 else -1):
+                    bad(f"helix_obj({form_}) after the caller refilled its parameter buffer", i, gotb + [hx.charge], want + [1 if want[2] > 0 else -1],
+                        "the three ways of passing parameters agree; a helix reports the documented quantities of the parameters it was built with"); break
         if i % 5 == 0:   # the three ways of passing parameters
             a = pybes3.helix_obj(*want, pivot=tuple(h["piv"][i]))
             b = pybes3.helix_obj(dr=want[0], phi0=want[1], kappa=want[2], dz=want[3], tanl=want[4], pivot=vector.obj(x=h["piv"][i][0], y=h["piv"][i][1], z=h["piv"][i][2]))
